@@ -257,6 +257,7 @@ def ref_sigma6(cfg, lay, eps, z, sig_ret):
 # batched calls of the implementation
 # ------------------------------------------------------------------------------------------------
 CHUNK = 4096
+_CHUNK = [None]  # per-case override: number of steps (difference stencils) per Integrate call
 
 
 def _fe(a):
@@ -286,7 +287,7 @@ def integrate(beh, eps, zold, dt, stats, atom=1):
     ok = np.zeros(N, dtype=bool)
     raised = np.zeros(N, dtype=bool)
     pure = True
-    chunk = max(atom, CHUNK - CHUNK % atom)
+    chunk = max(atom, CHUNK - CHUNK % atom) if _CHUNK[0] is None else atom * _CHUNK[0]
     stack = [np.arange(i, min(i + chunk, N)) for i in range(0, N, chunk)][::-1]
     while stack:
         idx = stack.pop()
@@ -503,11 +504,14 @@ def check_level(cfg, lay, behs, eps, zold, names, depth, full_fd, stats, out):
     if len(bi):
         ssc = np.maximum(np.max(np.abs(sig[bi]), axis=1), SIGMA_Y)
         es = np.max(np.abs(sig[bi] - sigN[bi]), axis=1) / ssc
-        for j in np.nonzero(es > TOL_SOLVERS)[0][:1]:
+        # plane stress: each solver may stop with an out-of-plane stress of ps_tolerance (documented setting), so two converged
+        # answers differ by a few times that; one-point batches do stop there (large batches iterate until the last point converged)
+        tol_s = TOL_SOLVERS if cfg["dim"] != "PlaneStress" else max(TOL_SOLVERS, 4.0 * ps_tolerance(cfg) / SIGMA_Y)
+        for j in np.nonzero(es > tol_s)[0][:1]:
             add("solvers_sigma", bi[j], f"solver 'auto' and 'newton' disagree on sigma by rel {es[j]:.2e}")
         if lay.n:
             ez = np.max(np.abs(z[bi] - zN[bi]), axis=1) / np.maximum(np.max(np.abs(z[bi]), axis=1), EPS_Y)
-            for j in np.nonzero(ez > TOL_SOLVERS)[0][:1]:
+            for j in np.nonzero(ez > tol_s)[0][:1]:
                 add("solvers_state", bi[j], f"solver 'auto' and 'newton' disagree on z by rel {ez[j]:.2e}")
 
     # --- tangent: Richardson central differences along the chosen directions -------------------------------
@@ -582,6 +586,14 @@ def new_stats():
 
 
 def run_material(case):
+    _CHUNK[0] = case.get("chunk")
+    try:
+        return _run_material(case)
+    finally:
+        _CHUNK[0] = None
+
+
+def _run_material(case):
     cfg = {k: case[k] for k in FACTORS}
     lay = Layout(cfg)
     behT = build_behavior(cfg, "auto")
@@ -627,7 +639,7 @@ def run_material(case):
     if stats["fd_skipped"]:
         flags.append("fd-skips")
     nontrivial = (stats["flowed"] + stats["relaxed"] > 0) if lay.n else True
-    return {"violations": _dedupe(out), "fingerprint": fp(cfg, depth, first, obs), "nontrivial": nontrivial,
+    return {"violations": _dedupe(out), "fingerprint": fp(cfg, depth, first, case.get("chunk"), obs), "nontrivial": nontrivial,
             "outcome": ("violation" if out else "ok") + ("(" + ",".join(flags) + ")" if flags else ""),
             "transitions": stats["transitions"], "states": n_states, "stats": stats}
 
@@ -913,7 +925,21 @@ def cases(tier, seed):
                 out.append({"kind": "mat", **c, "depth": d})
         sims = {k: 4 for k in SIM_CFGS}
         sims["J2lin-PE-QUAD4"] = sims["J2voceAF-PS-mixed"] = 5
+    # the plane-stress condition is enforced by an iteration over the WHOLE batch handed to Integrate: the same paths integrated
+    # one point per call (what a uniformly strained mesh, or a single material point, gives), depth 2; the oracle is unchanged
+    seen_ps = set()
+    for c in list(out):
+        if c["kind"] == "mat" and c["dim"] == "PlaneStress" and c["yield"] != "none":
+            k = tuple(c[f] for f in FACTORS)
+            if k not in seen_ps and (tier == "thorough" or _ndev(c) <= 2):
+                seen_ps.add(k)
+                out.append({"kind": "mat", **{f: c[f] for f in FACTORS}, "depth": 2, "chunk": 1})
     out.sort(key=lambda c: -c["depth"])  # the expensive cases first (load balance)
+    # the runner hands out blocks of 8 consecutive cases: one single-point case (the longest ones) at the head of each of the first blocks
+    heavy = [c for c in out if c.get("chunk")]
+    out = [c for c in out if not c.get("chunk")]
+    for i, c in enumerate(heavy):
+        out.insert(min(i * 8, len(out)), c)
     # MaterialPoint.Run (stress-controlled components are solved by an inner Newton on the strain): purity of the integration
     # inside that loop.  behaviours x control modes x strain programs
     mp_cfgs = [dict(_DEFAULT_MP, **d) for d in (
